@@ -3,6 +3,7 @@ package cmd
 import (
 	"errors"
 
+	"github.com/mikefarah/yq/v4/pkg/verifhook"
 	"github.com/mikefarah/yq/v4/pkg/yqlib"
 	"github.com/spf13/cobra"
 )
@@ -86,6 +87,7 @@ func evaluateAll(cmd *cobra.Command, args []string) (cmdError error) {
 		return err
 	}
 
+	out = verifhook.Writer("out", out)
 	printerWriter, err := configurePrinterWriter(format, out)
 	if err != nil {
 		return err
